@@ -459,6 +459,19 @@ func runC16(r *Run) {
 	g.maxRTT = 1 << 53
 	n := 20 + t.Intn(scale(181, 800), "ops")
 	nl := t.Intn(5, "listeners")
+	if t.Chance(8, "many-listeners") {
+		nl = 9 + t.Intn(12, "listeners-many") // "any number of listeners"
+	}
+	// a second limit of the same kind alive in the same process, with a listener of its own: each limit's listeners
+	// hear about that limit only
+	var sib *algo
+	sibAt := -1
+	sibL := &noteListener{}
+	if t.Chance(25, "sibling-limit") {
+		if sb, e := buildAlgo(cfg, false); e == nil {
+			sib, sibAt = sb, t.Intn(n, "sibling-listener-at")
+		}
+	}
 	var regAt []int
 	for i := 0; i < nl; i++ {
 		regAt = append(regAt, t.Intn(n, "register-at"))
@@ -484,6 +497,10 @@ func runC16(r *Run) {
 				}
 			}
 		}
+		if sib != nil && i == sibAt {
+			sib.Lim.NotifyOnChange(func(v int) { sibL.calls++; sibL.last = v })
+			r.Probe("sibling_limit_with_own_listener")
+		}
 		before, p := safeEstimate(a.Lim)
 		if p != nil {
 			return
@@ -491,6 +508,7 @@ func runC16(r *Run) {
 		for _, l := range ls {
 			l.callsInOp = 0
 		}
+		sibCallsBefore := sibL.calls
 		desc := ""
 		if cfg.Name == "settable" && t.Chance(40, "set?") {
 			v := []int{1, 5, 0, 12, before, 100, 3, -1, -7}[t.Intn(9, "set-v")]
@@ -522,6 +540,10 @@ func runC16(r *Run) {
 				return
 			}
 			desc = s.String()
+		}
+		if sibL.calls != sibCallsBefore {
+			r.Fail("listener-of-other-limit-called", algoKey(a, ""), "operation %d %s on one limit called the listener registered on another limit of the same kind (with %d) [%s]", i, desc, sibL.last, cfg)
+			return
 		}
 		after, _ := safeEstimate(a.Lim)
 		if inner, _ := safeEstimate(a.Inner); inner != after {
